@@ -192,12 +192,14 @@ pub fn do_crash_restart(w: &mut World, n: usize, back: u32) {
     // last call of this node that journalled something
     let last = w.calls.iter().rposition(|c| c.node as usize == n && c.j1 > c.j0);
     let jlen = w.nodes[n].disk.journal_len();
+    let writer_alone = n == 0 && w.nodes.len() == 1;
     let (keep, allowed) = match last {
         Some(ci)
-            if n != 0
-                && back > 0
+            if back > 0
                 && w.calls[ci].j1 == jlen
-                && w.calls[ci].label == "verify_and_apply_proof" =>
+                && ((n != 0 && w.calls[ci].label == "verify_and_apply_proof")
+                    || (writer_alone
+                        && matches!(w.calls[ci].label.as_str(), "append" | "clear" | "make_read_only"))) =>
         {
             let c = &w.calls[ci];
             let ops = (c.j1 - c.j0) as u32;
@@ -231,13 +233,22 @@ pub fn do_crash_restart(w: &mut World, n: usize, back: u32) {
             let m = allowed.iter().find(|m| o.died.is_none() && crate::crash::diff(&o, m).is_none()).cloned();
             match (m, core) {
                 (Some(m), Some(c)) => {
+                    if n == 0 && m.length < w.truth.len() {
+                        // the interrupted append never happened: the writer's history ends earlier
+                        let l = m.length as usize;
+                        w.truth.blocks.truncate(l);
+                        w.truth.offsets.truncate(l + 1);
+                        w.truth.signed.retain(|s| s.0 <= m.length);
+                        w.reftree = crate::merkle::RefTree::from_blocks(&w.truth.blocks);
+                    }
                     w.nodes[n].model = m;
                     w.nodes[n].core = Some(c);
                     w.subscribe(n);
                     w.logf(|| format!("crash-restart n{n} keep {keep}/{jlen} -> recovered"));
                 }
                 _ => {
-                    // recovery is C02's clause; not judged here
+                    // recovery is C02's clause (judged when the run is a C02 multi-crash run)
+                    w.viol("C02.multi", format!("crash-restart of node {n} keeping {keep} of {jlen} storage ops: recovered state is neither before nor after the interrupted call"));
                     w.aborted = Some("crash recovery did not give a before-or-after state (C02's clause)".into());
                     w.nodes[n].dead = true;
                 }
@@ -245,6 +256,7 @@ pub fn do_crash_restart(w: &mut World, n: usize, back: u32) {
         }
         other => {
             let b = crate::world::brief_unit(&other);
+            w.viol("C02.multi", format!("crash-restart of node {n} keeping {keep} of {jlen} storage ops: reopen failed: {b}"));
             w.logf(|| format!("crash-restart n{n} keep {keep}/{jlen}: reopen failed {b}"));
             w.aborted = Some(format!("reopen after crash failed (C02's clause): {b}"));
             w.nodes[n].dead = true;
